@@ -70,7 +70,12 @@ impl Resolver {
         }
     }
 
-    fn lookup_exact(&mut self, name: &Rc<String>, context: Namespace) -> bool {
+    // The functions below collect what a definition depends on; `visit`
+    // walks those dependencies with a stack of its own rather than by
+    // recursion, so that long chains of definitions cannot overflow the
+    // call stack.
+
+    fn lookup_exact(&self, name: &Rc<String>, context: Namespace, out: &mut Vec<Id>) -> bool {
         let to_check: &[Namespace] = match context {
             Namespace::Quantity => &[Namespace::Quantity],
             _ => &[Namespace::Unit, Namespace::Prefix, Namespace::Quantity],
@@ -81,17 +86,22 @@ impl Resolver {
                 name: name.clone(),
             };
             if self.input.contains_key(&id) {
-                self.visit(&id);
+                out.push(id);
                 return true;
             }
         }
         false
     }
 
-    fn lookup_with_prefix(&mut self, name: &Rc<String>, context: Namespace) -> bool {
+    fn lookup_with_prefix(
+        &self,
+        name: &Rc<String>,
+        context: Namespace,
+        out: &mut Vec<Id>,
+    ) -> bool {
         // A short prefix on its own is not a unit: keep looking for the
         // readings the name has as one.
-        let exact = self.lookup_exact(name, context);
+        let exact = self.lookup_exact(name, context, out);
         if exact && (context != Namespace::Unit || self.takes_prefix(name, context)) {
             return true;
         }
@@ -108,8 +118,8 @@ impl Resolver {
         let mut any = false;
         for pre in found {
             let rest = Rc::new(name[pre.name.len()..].to_owned());
-            if self.takes_prefix(&rest, context) && self.lookup_exact(&rest, context) {
-                self.visit(&pre);
+            if self.takes_prefix(&rest, context) && self.lookup_exact(&rest, context, out) {
+                out.push(pre);
                 any = true;
             }
         }
@@ -134,18 +144,18 @@ impl Resolver {
             )
     }
 
-    fn lookup(&mut self, name: &Rc<String>, context: Namespace) -> bool {
-        self.lookup_with_prefix(name, context)
+    fn lookup(&self, name: &Rc<String>, context: Namespace, out: &mut Vec<Id>) -> bool {
+        self.lookup_with_prefix(name, context, out)
             || name.ends_with('s') && {
                 let name = &Rc::new(name[0..name.len() - 1].to_owned());
-                self.lookup_with_prefix(name, context)
+                self.lookup_with_prefix(name, context, out)
             }
-            || context == Namespace::Unit && self.lookup_formula(name)
+            || context == Namespace::Unit && self.lookup_formula(name, out)
     }
 
     /// A substance's symbol, or a chemical formula made of symbols,
     /// refers to those substances.
-    fn lookup_formula(&mut self, name: &str) -> bool {
+    fn lookup_formula(&self, name: &str, out: &mut Vec<Id>) -> bool {
         let mut found = vec![];
         let mut chars = name.chars().peekable();
         while let Some(c) = chars.next() {
@@ -164,76 +174,97 @@ impl Resolver {
                 _ => return false,
             }
         }
-        for id in &found {
-            self.visit(id);
-        }
-        !found.is_empty()
+        let any = !found.is_empty();
+        out.extend(found);
+        any
     }
 
-    fn eval(&mut self, expr: &Expr, context: Namespace) {
+    fn eval(&mut self, expr: &Expr, context: Namespace, out: &mut Vec<Id>) {
         match *expr {
             Expr::Unit { ref name } => {
                 let name = self.intern(name);
-                self.lookup(&name, context);
+                self.lookup(&name, context, out);
             }
             Expr::BinOp(BinOpExpr {
                 ref left,
                 ref right,
                 ..
             }) => {
-                self.eval(left, context);
-                self.eval(right, context);
+                self.eval(left, context, out);
+                self.eval(right, context, out);
             }
-            Expr::UnaryOp(ref unaryop) => self.eval(&unaryop.expr, context),
-            Expr::Of { ref expr, .. } => self.eval(expr, context),
+            Expr::UnaryOp(ref unaryop) => self.eval(&unaryop.expr, context, out),
+            Expr::Of { ref expr, .. } => self.eval(expr, context, out),
 
             Expr::Mul { ref exprs }
             | Expr::Call {
                 args: ref exprs, ..
             } => {
                 for expr in exprs {
-                    self.eval(expr, context);
+                    self.eval(expr, context, out);
                 }
             }
             _ => (),
         }
     }
 
-    fn visit(&mut self, id: &Id) {
+    /// The definitions that have to be loaded before `id` can be.
+    fn dependencies(&mut self, id: &Id) -> Vec<Id> {
+        let mut out = vec![];
+        if let Some(v) = self.input.get(id).cloned() {
+            match *v {
+                Def::Prefix { ref expr, .. } | Def::Unit { ref expr } | Def::Quantity { ref expr } => {
+                    self.eval(expr, id.namespace, &mut out)
+                }
+                Def::Substance { ref properties, .. } => {
+                    for prop in properties {
+                        self.eval(&prop.input, id.namespace, &mut out);
+                        self.eval(&prop.output, id.namespace, &mut out);
+                    }
+                }
+                _ => (),
+            }
+        }
+        out
+    }
+
+    /// Begins the visit of `id`: nothing to do if it is loaded already,
+    /// a cycle if its visit is still going on, otherwise its
+    /// dependencies are queued.
+    fn enter(&mut self, id: &Id, work: &mut Vec<(Id, std::vec::IntoIter<Id>)>) {
         // A base unit's long name is only usable once the base unit
         // itself is loaded.
-        if let Some(short) = self.long_names.get(id).cloned() {
-            return self.visit(&short);
-        }
-        if self.temp_marks.get(id).is_some() {
+        let id = self.long_names.get(id).unwrap_or(id).clone();
+        if self.temp_marks.get(&id).is_some() {
             self.errors
                 .push(format!("Unit {} has a dependency cycle", id));
-            if let Some(start) = self.stack.iter().position(|on_stack| on_stack == id) {
+            if let Some(start) = self.stack.iter().position(|on_stack| *on_stack == id) {
                 self.cyclic.extend(self.stack[start..].iter().cloned());
             }
             return;
         }
-        if self.unmarked.get(id).is_some() {
+        if self.unmarked.get(&id).is_some() {
             self.temp_marks.insert(id.clone());
             self.stack.push(id.clone());
-            if let Some(v) = self.input.get(id).cloned() {
-                match *v {
-                    Def::Prefix { ref expr, .. }
-                    | Def::Unit { ref expr }
-                    | Def::Quantity { ref expr } => self.eval(expr, id.namespace),
-                    Def::Substance { ref properties, .. } => {
-                        for prop in properties {
-                            self.eval(&prop.input, id.namespace);
-                            self.eval(&prop.output, id.namespace);
-                        }
-                    }
-                    _ => (),
+            let deps = self.dependencies(&id);
+            work.push((id, deps.into_iter()));
+        }
+    }
+
+    fn visit(&mut self, id: &Id) {
+        let mut work = vec![];
+        self.enter(id, &mut work);
+        while let Some((_, deps)) = work.last_mut() {
+            match deps.next() {
+                Some(dep) => self.enter(&dep, &mut work),
+                None => {
+                    let (id, _) = work.pop().unwrap();
+                    self.stack.pop();
+                    self.unmarked.remove(&id);
+                    self.temp_marks.remove(&id);
+                    self.sorted.push(id);
                 }
             }
-            self.stack.pop();
-            self.unmarked.remove(id);
-            self.temp_marks.remove(id);
-            self.sorted.push(id.clone());
         }
     }
 }
